@@ -695,7 +695,7 @@ fn start_incarnation(
 ) -> Incarnation {
     let k = &sc.knobs;
     let truth: SharedTruth = Arc::new(std::sync::Mutex::new(Truth::default()));
-    let lifecycle = SimLifecycle { truth: truth.clone() };
+    let lifecycle = SimLifecycle { truth: truth.clone(), commanders: Default::default() };
     let model = AgentModel::new(SimAgent::default, lifecycle.into_lifecycle());
     let (att_tx, att_rx) = mpsc::channel(k.att_queue.max(1) as usize);
     let (http_tx, http_rx) = mpsc::channel(4);
